@@ -2,16 +2,22 @@
 package main
 
 import (
+	"bufio"
 	"bytes"
 	"encoding/binary"
 	"fmt"
+	"io"
 	"math/rand"
+	"net"
+	"net/http"
 	"net/http/httptest"
 	"net/url"
 	"os"
 	"os/exec"
 	"path/filepath"
+	"runtime"
 	"strings"
+	"sync"
 	"time"
 
 	"github.com/folbricht/desync"
@@ -151,6 +157,10 @@ func run(c *harness.Ctx, i int) {
 	}
 	idx := genIndex(rng, sha256)
 	leg := []string{"roundtrip", "roundtrip", "store", "prefix", "corrupt", "corrupt"}[rng.Intn(6)]
+	if i%40 == 7 {
+		concurrentLeg(c, rng, sha256)
+		return
+	}
 	c.Info("leg=%s chunks=%d max=%d sha256=%v flags=%x", leg, len(idx.Chunks), idx.Index.ChunkSizeMax, sha256, idx.Index.FeatureFlags)
 	c.LogInfo()
 	var buf bytes.Buffer
@@ -226,10 +236,45 @@ func storeLeg(c *harness.Ctx, rng *rand.Rand, idx desync.Index, raw []byte, sha2
 	var err error
 	var stored []byte
 	opt := desync.StoreOptions{N: 1, ErrorRetry: 0}
+	// history: the name may already hold another (often longer) index written through the same store
+	var prev *desync.Index
+	if rng.Intn(2) == 0 {
+		p := genIndex(rng, sha256)
+		if rng.Intn(2) == 0 {
+			p.Chunks = append(append([]desync.IndexChunk(nil), idx.Chunks...), p.Chunks...) // strictly longer file
+			var start uint64
+			for k := range p.Chunks {
+				p.Chunks[k].Start = start
+				start += p.Chunks[k].Size
+			}
+			p.Index = idx.Index
+			for k := len(idx.Chunks); k < len(p.Chunks); k++ {
+				if p.Chunks[k].Size > p.Index.ChunkSizeMax {
+					p.Chunks[k].Size = p.Index.ChunkSizeMax
+				}
+			}
+			start = 0
+			for k := range p.Chunks {
+				p.Chunks[k].Start = start
+				start += p.Chunks[k].Size
+			}
+		}
+		prev = &p
+	}
+	pre := func(s desync.IndexWriteStore) error {
+		if prev == nil {
+			return nil
+		}
+		c.Count("store_overwrites", 1)
+		return s.StoreIndex(name, *prev)
+	}
 	switch kind {
 	case "local":
 		s, e := desync.NewLocalIndexStore(dir)
 		dsu.Must(e)
+		if err = pre(s); err != nil {
+			break
+		}
 		if err = s.StoreIndex(name, idx); err == nil {
 			stored, _ = os.ReadFile(filepath.Join(dir, name))
 			got, err = s.GetIndex(name)
@@ -242,6 +287,9 @@ func storeLeg(c *harness.Ctx, rng *rand.Rand, idx desync.Index, raw []byte, sha2
 		u, _ := url.Parse(srv.URL + "/")
 		s, e := desync.NewRemoteHTTPIndexStore(u, opt)
 		dsu.Must(e)
+		if err = pre(s); err != nil {
+			break
+		}
 		if err = s.StoreIndex(name, idx); err == nil {
 			stored, _ = os.ReadFile(filepath.Join(dir, name))
 			got, err = s.GetIndex(name)
@@ -251,6 +299,9 @@ func storeLeg(c *harness.Ctx, rng *rand.Rand, idx desync.Index, raw []byte, sha2
 		defer f.Close()
 		s, e := desync.NewS3IndexStore(f.URL("idx"), fakes.Creds(), fakes.Region, opt, fakes.Lookup)
 		dsu.Must(e)
+		if err = pre(s); err != nil {
+			break
+		}
 		if err = s.StoreIndex(name, idx); err == nil {
 			stored, _ = f.Get("idx/" + name)
 			got, err = s.GetIndex(name)
@@ -264,6 +315,9 @@ func storeLeg(c *harness.Ctx, rng *rand.Rand, idx desync.Index, raw []byte, sha2
 			return
 		}
 		defer s.Close()
+		if err = pre(s); err != nil {
+			break
+		}
 		if err = s.StoreIndex(name, idx); err == nil {
 			stored, _ = os.ReadFile(filepath.Join(dir, name))
 			got, err = s.GetIndex(name)
@@ -332,8 +386,127 @@ func storeLeg(c *harness.Ctx, rng *rand.Rand, idx desync.Index, raw []byte, sha2
 	}
 	c.Count("store_roundtrips", 1)
 	if len(idx.Chunks) >= 2 {
-		c.NonTrivial("store|%s|%v|%s", kind, sha256, bucket(len(idx.Chunks)))
+		c.NonTrivial("store|%s|%v|%s|over=%v", kind, sha256, bucket(len(idx.Chunks)), prev != nil)
 	}
+}
+
+// concurrentLeg: one HTTP index server, several indexes of the same shape (same sizes, other IDs: any mix of them is a
+// valid index), fetched at the same time by several clients, one of which may read its response slowly so that the
+// server is still sending it while it serves the others. Every client must receive exactly the index it asked for.
+func concurrentLeg(c *harness.Ctx, rng *rand.Rand, sha256 bool) {
+	dir := c.CaseDir()
+	slow := rng.Intn(3) == 0
+	n := 2 + rng.Intn(3000)
+	k := 2 + rng.Intn(4)
+	if slow {
+		n = 250000 + rng.Intn(100000) // ~10-14 MB response: more than the socket buffers of a connection nobody reads
+		k = 2
+	}
+	procs := []int{1, 2, 4, 16}[rng.Intn(4)]
+	clients := 4 + rng.Intn(12)
+	c.Info("leg=concurrent chunks=%d indexes=%d slow-reader=%v gomaxprocs=%d clients=%d sha256=%v", n, k, slow, procs, clients, sha256)
+	c.LogInfo()
+	base := genIndex(rng, sha256)
+	base.Chunks = nil
+	var start uint64
+	for i := 0; i < n; i++ {
+		size := uint64(1 + rng.Int63n(int64(base.Index.ChunkSizeMax)))
+		base.Chunks = append(base.Chunks, desync.IndexChunk{Start: start, Size: size})
+		start += size
+	}
+	ls, e := desync.NewLocalIndexStore(dir)
+	dsu.Must(e)
+	idxs := make([]desync.Index, k)
+	raws := make([][]byte, k)
+	for j := 0; j < k; j++ {
+		idxs[j] = desync.Index{Index: base.Index, Chunks: append([]desync.IndexChunk(nil), base.Chunks...)}
+		for i := range idxs[j].Chunks {
+			rng.Read(idxs[j].Chunks[i].ID[:])
+		}
+		var b bytes.Buffer
+		idxs[j].WriteTo(&b)
+		raws[j] = b.Bytes()
+		dsu.Must(os.WriteFile(filepath.Join(dir, fmt.Sprintf("i%d.caibx", j)), raws[j], 0644))
+	}
+	old := runtime.GOMAXPROCS(procs)
+	defer runtime.GOMAXPROCS(old)
+	srv := httptest.NewServer(desync.NewHTTPIndexHandler(ls, false, ""))
+	defer srv.Close()
+	u, _ := url.Parse(srv.URL + "/")
+	var mu sync.Mutex
+	var bad []string
+	report := func(f string, a ...interface{}) { mu.Lock(); bad = append(bad, fmt.Sprintf(f, a...)); mu.Unlock() }
+	fetchAll := func(rounds int) {
+		var wg sync.WaitGroup
+		for cl := 0; cl < clients; cl++ {
+			wg.Add(1)
+			go func(cl int) {
+				defer wg.Done()
+				s, e := desync.NewRemoteHTTPIndexStore(u, desync.StoreOptions{N: 1, ErrorRetry: 0})
+				if e != nil {
+					report("client: %v", e)
+					return
+				}
+				for r := 0; r < rounds; r++ {
+					j := (cl + r) % k
+					if slow {
+						j = 1 // the slow reader asked for index 0
+					}
+					got, err := s.GetIndex(fmt.Sprintf("i%d.caibx", j))
+					if err != nil {
+						report("GetIndex(i%d) under concurrent load failed: %v", j, err)
+						return
+					}
+					if d := sameIndex(idxs[j], got); d != "" {
+						report("GetIndex(i%d) under concurrent load returned another table: %s", j, d)
+						return
+					}
+				}
+			}(cl)
+		}
+		wg.Wait()
+	}
+	if slow {
+		conn, err := net.Dial("tcp", strings.TrimPrefix(srv.URL, "http://"))
+		dsu.Must(err)
+		defer conn.Close()
+		fmt.Fprintf(conn, "GET /i0.caibx HTTP/1.1\r\nHost: x\r\nConnection: close\r\n\r\n")
+		br := bufio.NewReaderSize(conn, 4096)
+		if _, err := br.Peek(1); err != nil { // the server has started to send
+			c.Inconclusive("slow reader: %v", err)
+			return
+		}
+		fetchAll(3)
+		resp, err := http.ReadResponse(br, nil)
+		if err != nil {
+			report("slow reader: %v", err)
+		} else {
+			body, err := io.ReadAll(resp.Body)
+			resp.Body.Close()
+			if err != nil || resp.StatusCode != 200 {
+				report("slow reader: status %d, %v", resp.StatusCode, err)
+			} else if !bytes.Equal(body, raws[0]) {
+				at := 0
+				for at < len(body) && at < len(raws[0]) && body[at] == raws[0][at] {
+					at++
+				}
+				what := "other bytes"
+				if at < len(raws[1]) && at < len(body) && bytes.Equal(body[at:min(at+32, len(body))], raws[1][at:min(at+32, len(raws[1]))]) {
+					what = "the bytes of the index another client asked for"
+				}
+				report("a client that read its response slowly received %d bytes that differ from the stored index from offset %d on (%s)", len(body), at, what)
+			}
+		}
+	} else {
+		fetchAll(2 + rng.Intn(4))
+	}
+	if len(bad) > 0 {
+		c.Violation("concurrent-fetch", "%s (%d reports; %d chunks, %d indexes, %d clients, GOMAXPROCS=%d)", bad[0], len(bad), n, k, clients, procs)
+		return
+	}
+	c.Count("concurrent_fetch_cases", 1)
+	c.NonTrivial("concurrent|slow=%v|procs=%d|%v", slow, procs, sha256)
+	c.Sample(map[string]interface{}{"leg": "concurrent", "chunks": n, "indexes": k, "clients": clients, "slow_reader": slow, "gomaxprocs": procs})
 }
 
 func corruptLeg(c *harness.Ctx, rng *rand.Rand, idx desync.Index, raw []byte, sha256 bool) {
